@@ -283,8 +283,15 @@ class t2grid(object):
         """Adds a block to the grid"""
         if newblock is None: newblock = t2block()
         if newblock.name in self.block:
-            i = self.blocklist.index(self.block[newblock.name])
+            oldblock = self.block[newblock.name]
+            i = self.blocklist.index(oldblock)
             self.blocklist[i] = newblock
+            if newblock is not oldblock:
+                # connections to the replaced block now join the new block:
+                for conname in oldblock.connection_name:
+                    con = self.connection[conname]
+                    con.block = [newblock if blk is oldblock else blk for blk in con.block]
+                    newblock.connection_name.add(conname)
         else: self.blocklist.append(newblock)
         self.block[newblock.name] = newblock
 
